@@ -98,7 +98,7 @@ def gen_cases(seed, tier):
             env = {s: rng.choice([0.0, 1.0, 2.0, 3.5, 6.0, 0.25]) for s in SPECIES}
             env.update({p: rng.choice([0.5, 1.0, 2.0, 0.1, 4.0]) for p in PARAMS}); env["t"] = rng.choice([0.0, 0.5, 2.0])
             pts.append({"env": env, "V": rng.choice([0.5, 2.0, 3.0])})
-        cases.append({"kind": "expr", "tree": tr, "string": to_string(tr), "points": pts, "via": rng.choice(["propensity", "rule", "parse"])})
+        cases.append({"kind": "expr", "tree": tr, "string": to_string(tr), "points": pts, "via": rng.choice(["propensity", "rule", "parse", "oderule"])})
     # volume sweep: every operator x every argument position carries a volume-bearing subtree, the other positions simple
     # fillers; more evaluation points, so that for Max / Min the volume-bearing argument decides the value at some of them
     # (added after the seeded change S_C02: MinTerm.volume_evaluate reading its first argument without the volume)
@@ -123,7 +123,7 @@ def gen_cases(seed, tier):
                             env = {s_: rng.choice([0.0, 1.0, 2.0, 3.5, 6.0, 0.25]) for s_ in SPECIES}
                             env.update({p_: rng.choice([0.5, 1.0, 2.0, 0.1, 4.0]) for p_ in PARAMS}); env["t"] = rng.choice([0.0, 0.5, 2.0])
                             pts.append({"env": env, "V": rng.choice([0.5, 2.5, 3.0, 0.2])})
-                        cases.append({"kind": "expr", "tree": tr, "string": to_string(tr), "points": pts, "via": rng.choice(["propensity", "rule", "parse"]), "family": "volsweep"})
+                        cases.append({"kind": "expr", "tree": tr, "string": to_string(tr), "points": pts, "via": rng.choice(["propensity", "rule", "parse", "oderule"]), "family": "volsweep"})
     # role swap: ONE expression text compiled in several models of the same process in which its names change role (species /
     # parameter) and position (padding species and parameters shift the indices): every build must evaluate to the written
     # formula, whatever was compiled before (seeded change S2_C02: a parse cache keyed by text and slot numbers)
@@ -169,6 +169,11 @@ def _build(string, via):
         M = Model(species=SPECIES + ["OUT"], parameters=params, rules=[("assignment", {"equation": "OUT = " + string})], initial_condition_dict=dict(x0, OUT=0.0))
         rule = [it for it in M.__getstate__() if isinstance(it, list) and it and type(it[0]).__name__.endswith("Rule")][0][0]
         return G._state_of(rule)[3], M
+    if via == "oderule":
+        # the same expression as the right-hand side of an ODE rule; the compiled tree is read through parse_general_expression,
+        # the rule object itself is EXECUTED in impl_case (seeded change S6_C02: the ODE rule's volume path swapped volume and time)
+        M = Model(species=SPECIES + ["OUT"], parameters=params, rules=[("ode", {"equation": string, "target": "OUT"})], initial_condition_dict=dict(x0, OUT=0.0))
+        return M.parse_general_expression(string), M
     M = Model(species=SPECIES + ["OUT"], parameters=params, initial_condition_dict=dict(x0, OUT=0.0))
     return M.parse_general_expression(string), M
 
@@ -248,6 +253,15 @@ def impl_case(case):
             try: v1 = float(term.py_volume_evaluate(x, pv, pt["V"], t))
             except BaseException as e: v1 = None
             out["vals"].append({"x": G.flist(x), "p": G.flist(pv), "t": fhex(t), "V": fhex(pt["V"]), "plain": None if v0 is None else fhex(v0), "vol": None if v1 is None else fhex(v1)})
+            if case["via"] in ("rule", "oderule"):
+                # the rule object executed as the simulators execute it: OUT := value (assignment) or OUT += value * dt (ODE rule)
+                rule = [it for it in M.__getstate__() if isinstance(it, list) and it and type(it[0]).__name__.endswith("Rule")][0][0]
+                ex = {}
+                for key_, call in (("plain", lambda xc: rule.py_execute_rule(xc, pv.copy(), t, 0.25, True)), ("vol", lambda xc: rule.py_execute_volume_rule(xc, pv.copy(), pt["V"], t, 0.25, True))):
+                    xc = x.copy(); xc[s2i["OUT"]] = 0.5
+                    try: call(xc); ex[key_] = fhex(float(xc[s2i["OUT"]]))
+                    except BaseException: ex[key_] = None
+                out["vals"][-1]["exec"] = ex
     return out
 
 def driver_line(case, r):
@@ -306,6 +320,11 @@ def oracle(case, r):
             if v[key] is None: return "value: %s raised at a point where it is finite (%r) [%s]" % (case["string"], want, key)
             got = _num(v[key])
             if not _close(got, want, 1e-9): return "value: %s evaluates to %r, the written formula gives %r at %r (volume=%r) [%s, %s]" % (case["string"], got, want, pt["env"], vol, key, case["via"])
+            if v.get("exec") and v["exec"].get(key) is not None:
+                wex = want if case["via"] == "rule" else 0.5 + want * 0.25
+                if math.isfinite(wex) and not _close(_num(v["exec"][key]), wex, 1e-9):
+                    return "value: executing the %s with right-hand side %s leaves OUT = %r, the written formula gives %r at %r (volume=%r, time=%r) [%s]" % (
+                        "assignment rule" if case["via"] == "rule" else "ODE rule (OUT was 0.5, dt 0.25)", case["string"], _num(v["exec"][key]), wex, pt["env"], vol, pt["env"]["t"], key)
     return None
 
 def nontrivial(case):
